@@ -11,6 +11,18 @@ CHECKS = {
          "Seeded search over generated multi-store transactions (every store option) with one injected I/O, lock or lost-cache fault at a PRNG-chosen intercepted call of the subject; a warm and a cold observer must read S0 or S0+W for all stores jointly, matching the Commit/Rollback result. Sampling, not proof.",
          "Trusted: the simulator (scheduler, simulated disk = real files on tmpfs behind intercepted FileIO/DirectIO, in-memory L2 behind a proxy), the KV model, the observer using sop's own read path. Faults are injected above fs.retryIO (= error that persisted after retries).",
          "7/C01"),
+ "C17": (EXPL, "deterministic simulation (single task): seeded operation sequences vs ordered multiset/map reference model, call by call",
+         "Seeded sequential programs through the public infs API on the simulated disk, every return value, Count and scan compared with an ordered multiset/map model; slot length 2..64, unique/duplicate, load balancing on/off, cold restarts and rolled-back transactions in between. Decides the persisted instantiation; inmemory.Range/RangeDesc iterators are pure and not covered.",
+         "Trusted: the reference model (checks/model.go), the simulator. No schedule dimension: one task; the simulator contributes the simulated disk, cold restarts and seeded generation/shrinking.",
+         "7/C17"),
+ "C18": (EXPL, "deterministic simulation (single task): seeded probe/range programs vs ordered multiset model",
+         "Seeded sequential programs mixing writes with Find(first)/FindInDescendingOrder/FindWithID and ascending/descending range scans started from probes that may miss; the items visited must be exactly the model's range, the cursor must sit on the first/last/requested duplicate.",
+         "Trusted: the reference model, the simulator; range scans are driven the way a caller would (step once if the cursor stopped before/after the range start).",
+         "7/C17"),
+ "C19": (EXPL, "deterministic simulation (single task): seeded programs x storage options vs in-memory model, cold reopen",
+         "Seeded sequential programs over the four value placements, three cache-duration settings, slot lengths 2..32, value sizes 0 B..1.1 MB, random batching into transactions and cold restarts; every read and the final cold ordered (key,value) dump must equal the model.",
+         "Trusted: the reference model, the simulator (simulated disk = real files on tmpfs).",
+         "7/C19"),
 }
 
 NOT_APPLICABLE = {
